@@ -843,7 +843,7 @@ fn decode_7bit(mut input: impl io::BufRead) -> io::Result<usize> {
     let mut res = 0usize;
     loop {
         let b = read_unescape(&mut input)?;
-        match res.checked_shl(7) {
+        match res.checked_mul(1 << 7) {
             Some(v) => res = v,
             None => return err("integer too large"),
         }
